@@ -54,7 +54,8 @@ MANIFEST = {
              "to return in bounded time. Reopen checks stores open, tips readable, filter tip <= block tip, last 50 "
              "headers linked, NewChainService succeeds; chain validity proper is C01/C03. The interleaving of "
              "goroutines inside the real Stop is whatever the Go scheduler does (moments: immediately / parked / "
-             "seeded delay / held after a step), the model side is exhaustive.",
+             "seeded delay / held after a step), the model side is exhaustive."
+             " Slices: specs/BatchWriter (AddItem, batch-full and ticker flush, PutItems failing, Stop with the final flush) and specs/ConcQueue (chanutils.ConcurrentQueue) bound to the real structures under virtual time; their coverage is merged into this check's evidence.",
         design="4 C17", technique="TLA+ composite spec + TLC liveness under fairness + scenarios from model states "
                                  "replayed on a real ChainService + TLC-judged observed traces + trace inclusion in the exported graph"),
 }
